@@ -112,12 +112,13 @@ def rendered_text_probe(ctx, exe_tables):
     rng = ctx.rng
     cands = [sc.gen_project(rng, max_locales=3, force_ns=(i % 2 == 0)) for i in range(6)]
     proj = max(cands, key=lambda p: len([t for t in sc.touchables(p) if t[3] == ""]))
-    d = os.path.join(ctx.work, "probe_text")
+    d = os.path.join(ctx.work, "probe_text_s%d" % ctx.seed)
     touch_list = [t for t in sc.touchables(proj) if t[3] == ""]
     if len(touch_list) > 300:
         touch_list = rng.sample(touch_list, 300)
-    sc.write_probe(proj, d, touch_list, "c11_probe_text")
-    probe = sc.build_probe(d, "c11_probe_text")
+    name = "c11_probe_text_s%d" % ctx.seed
+    sc.write_probe(proj, d, touch_list, name)
+    probe = sc.build_probe(d, name)
     rc, out, err = core.sh([probe], input="".join("%d\n" % i for i in range(len(touch_list))), timeout=600)
     lines = out.splitlines()
     if rc != 0 or len(lines) != len(touch_list):
@@ -140,30 +141,227 @@ def rendered_text_probe(ctx, exe_tables):
     return {"accessors_rendered": n, "mismatches": bad}
 
 
+DIMS = {
+    "nloc": ["1", "2", "3", "4+"],
+    "role": ["default", "other", "inherits", "inherited_from"],
+    "ns": ["none", "1", "2+"],
+    "depth": ["0", "1", "2", "3"],
+    "kinds": ["L", "O", "R", "D", "V", "P", "B", "C"],
+    "defaulting": ["none", "key", "whole_group"],
+    "dup": ["none", "exact_within", "near_within", "foreign_key", "across_other_locales", "across_default"],
+    "cls": ["none"] + sc.CLASSES,
+    "size": ["0", "1", "2-9", "10+"],
+}
+
+
+def infeasible(A, a, B, b):
+    v = {A: a, B: b}
+    g = v.get
+    if g("nloc") == "1" and (g("role") not in (None, "default") or g("dup") in ("across_other_locales", "across_default")
+                              or g("defaulting") in ("key", "whole_group") or g("kinds") == "D"):
+        return "a project with one locale has only its default locale: nothing defaults, nothing is shared across locales"
+    if g("role") == "default" and (g("defaulting") in ("key", "whole_group") or g("kinds") == "D"
+                                   or g("dup") in ("across_other_locales", "across_default")):
+        return "the default locale defines every key (explicit defaults are an error there); sharing is tagged on the other locales"
+    if g("role") == "inherited_from" and g("nloc") == "2":
+        return "a non-default locale that another one inherits from needs three locales"
+    if g("nloc") == "2" and g("dup") == "across_other_locales":
+        return "sharing among non-default locales needs three locales"
+    if g("size") == "0" and (g("cls") not in (None, "none") or g("kinds") == "L" or g("dup") not in (None, "none")):
+        return "an empty table has no text"
+    if g("size") == "1" and g("dup") == "near_within":
+        return "near duplicates are two different texts"
+    if g("depth") == "0" and g("defaulting") == "whole_group":
+        return "no nested group"
+    if (g("kinds") == "D" and g("defaulting") == "none") or (g("kinds") == "L" and g("size") == "0"):
+        return "a defaulted key is what defaulting means"
+    return None
+
+
+def norm_near(t):
+    import unicodedata
+    return unicodedata.normalize("NFC", t.replace("​", "").strip().casefold())
+
+
+def unit_tags(proj, ns, loc, res):
+    u = res["units"][(ns, loc)]
+    li = proj.locales.index(loc)
+    t = {"nloc": {str(len(proj.locales)) if len(proj.locales) < 4 else "4+"},
+         "ns": {"none" if not proj.namespaces else "1" if len(proj.namespaces) == 1 else "2+"}}
+    if li == 0:
+        t["role"] = {"default"}
+    else:
+        r = set()
+        if loc in proj.inherits:
+            r.add("inherits")
+        if loc in proj.inherits.values():
+            r.add("inherited_from")
+        t["role"] = r or {"other"}
+    st = u.get("_stats") or sc.tree_stats(u["tree"])
+    t["depth"] = {str(min(st["depth"], 3))}
+    t["kinds"] = {k for k in st["kinds"] if k in DIMS["kinds"]}
+
+    def whole(g):
+        return all((e[0] == "E" and e[1][0] == "D") or (e[0] == "N" and whole(e[4])) for _, e in g) and len(g) > 0
+
+    def any_whole(g):
+        return any(e[0] == "N" and (whole(e[4]) or any_whole(e[4])) for _, e in g)
+    d = set()
+    if "D" in st["kinds"]:
+        d.add("key")
+    if any_whole(u["tree"]):
+        d.add("whole_group")
+    t["defaulting"] = d or {"none"}
+    table = u["strings"]
+    dup = set()
+    plain = [txt for _, txt in proj.plain_paths(ns, loc)]
+    if len(plain) != len(set(plain)):
+        dup.add("exact_within")
+    if len({norm_near(x) for x in table}) < len(table):
+        dup.add("near_within")
+
+    def has_fk(tree):
+        return any((n["kind"] == "other" and isinstance(n.get("json"), str) and "$t(" in n["json"]) or
+                   (n["kind"] == "sub" and has_fk(n["sub"])) for _, n in tree)
+    if table and has_fk(proj.units[ns][loc]):
+        dup.add("foreign_key")
+    if li > 0 and table:
+        for l2 in proj.locales[1:]:
+            if l2 != loc and set(table) & set(res["units"][(ns, l2)]["strings"]):
+                dup.add("across_other_locales")
+        if set(table) & set(res["units"][(ns, proj.locales[0])]["strings"]):
+            dup.add("across_default")
+    t["dup"] = dup or {"none"}
+    cl = set()
+    for x in table:
+        cl |= sc.classify(x)
+    t["cls"] = cl or {"none"}
+    n = len(table)
+    t["size"] = {"0" if n == 0 else "1" if n == 1 else "2-9" if n < 10 else "10+"}
+    return t
+
+
+def params_for(rng, pair):
+    """parameters of a structured project in which a unit with both tag values can exist"""
+    A, a, B, b = pair
+    v = {A: a, B: b}
+    P = {"nloc": rng.choice([2, 3, 4]), "nns": rng.choice([0, 1, 2]), "depth": rng.choice([0, 1, 2]), "mode": "rich",
+         "inherit": True, "ascii_idx": (), "focus": None}
+    role_idx = None
+    if "nloc" in v:
+        P["nloc"] = {"1": 1, "2": 2, "3": 3, "4+": rng.choice([4, 5])}[v["nloc"]]
+    if "ns" in v:
+        P["nns"] = {"none": 0, "1": 1, "2+": rng.choice([2, 3])}[v["ns"]]
+    if "depth" in v:
+        P["depth"] = int(v["depth"])
+    if v.get("defaulting") == "whole_group":
+        P["depth"] = max(P["depth"], 1)
+        P["nloc"] = max(P["nloc"], 2)
+        role_idx = 1
+    if v.get("defaulting") == "key" or v.get("kinds") == "D" or v.get("dup") == "across_default":
+        P["nloc"] = max(P["nloc"], 2)
+    if v.get("dup") == "across_other_locales":
+        P["nloc"] = max(P["nloc"], 3)
+    r = v.get("role")
+    if r == "default":
+        role_idx = 0
+    elif r == "inherits":
+        P["nloc"] = max(P["nloc"], 2)
+        role_idx = 1 if P["nloc"] == 2 else 2
+    elif r == "inherited_from":
+        P["nloc"] = max(P["nloc"], 3)
+        role_idx = 1
+    elif r == "other":
+        P["nloc"] = max(P["nloc"], 2)
+        if P["nloc"] == 2:
+            P["inherit"] = False
+            role_idx = 1
+        elif P["nloc"] == 3:
+            if "nloc" in v:
+                P["inherit"] = False
+                role_idx = 2
+            else:
+                P["nloc"] = 4
+                role_idx = 3
+        else:
+            role_idx = 3
+    if "size" in v:
+        P["mode"] = {"0": "zero", "1": "one", "2-9": "small", "10+": "rich"}[v["size"]]
+        if P["mode"] in ("one", "small") and role_idx == 1 and v.get("defaulting") != "whole_group":
+            P["depth"] = 0 if "depth" not in v else P["depth"]
+    c = v.get("cls")
+    if c == "none":
+        P["ascii_idx"] = (role_idx,) if role_idx is not None else tuple(range(P["nloc"]))
+        if P["mode"] in ("one", "small") or "size" in v:
+            P["ascii_idx"] = tuple(range(P["nloc"]))
+    elif c:
+        P["focus"] = c
+    if v.get("dup") == "near_within" and P["mode"] != "rich":
+        P["mode"] = "rich"
+    return P
+
+
 def run(ctx):
     bindir = core.cargo_build("h_strings")
     ok, problems = core.coq_audit(ctx, PROPS, THEOREMS)
     exe = os.path.join(bindir, "h_strings")
     rng = ctx.rng
     projects = [sc.single_string_project(t) for t in CORPUS]
+    projects += [sc.single_string_project(sc.CLASS_SAMPLES[c] + ("" if c == "empty" else "z")) for c in sc.CLASSES]
     n_random = 200 if ctx.quick else 4000
     for _ in range(n_random):
         projects.append(sc.gen_project(rng))
-    results = run_harness(ctx, exe, projects, "main")
+    # structured grid: locales x namespaces x nesting depth, every kind of value / class of text / kind of repetition in
+    # every group; then tables of size 0, 1 and a few
+    k = 0
+    for nloc in (1, 2, 3, 4):
+        for nns in (0, 1, 2):
+            for depth in (0, 1, 2, 3):
+                k += 1
+                if ctx.quick and (k % 2) and nloc in (2, 3) and depth in (1, 2):
+                    continue
+                projects.append(sc.structured_project(rng, nloc=nloc, nns=nns, depth=depth, mode="rich", inherit=(k % 3 != 0),
+                                                      ascii_idx=((k % nloc,) if k % 4 == 0 else ())))
+    for mode in ("zero", "one", "small"):
+        for nloc in (1, 2, 3, 4):
+            for j in range(3):
+                k += 1
+                projects.append(sc.structured_project(rng, nloc=nloc, nns=j, depth=(k % 4), mode=mode, inherit=(k % 2 == 0),
+                                                      ascii_idx=(tuple(range(nloc)) if k % 5 == 0 else ()),
+                                                      focus=sc.CLASSES[k % len(sc.CLASSES)]))
     items, metas, skipped, panics, shape = [], [], [], [], []
-    for pi, (p, r) in enumerate(zip(projects, results)):
-        if r["status"] == "PANIC" or (r["write"] or "").startswith("PANIC"):
-            panics.append({"project": pi, "locales": p.locales, "namespaces": p.namespaces})
-            continue
-        if r["status"] != "OK":
-            skipped.append({"project": pi, "error": r["err"]})
-            continue
-        for term, meta in unit_cases(pi, p, r):
-            if term is None:
-                shape.append(meta)
-            else:
-                items.append(term)
-                metas.append(meta)
+    tagged = []
+    rounds = 0
+    todo = projects
+    n_done = 0
+    while todo:
+        results = run_harness(ctx, exe, todo, "r%d" % rounds)
+        for pi, (p, r) in enumerate(zip(todo, results), start=n_done):
+            if r["status"] == "PANIC" or (r["write"] or "").startswith("PANIC"):
+                panics.append({"project": pi, "locales": p.locales, "namespaces": p.namespaces})
+                continue
+            if r["status"] != "OK":
+                skipped.append({"project": pi, "error": r["err"]})
+                continue
+            for term, meta in unit_cases(pi, p, r):
+                if term is None:
+                    shape.append(meta)
+                else:
+                    meta["tags"] = {kk: sorted(vv) for kk, vv in unit_tags(p, meta["namespace"], meta["locale"], r).items()}
+                    tagged.append({kk: set(vv) for kk, vv in meta["tags"].items()})
+                    items.append(term)
+                    metas.append(meta)
+        n_done += len(todo)
+        rounds += 1
+        missing = sorted(sc.missing_pairs(tagged, DIMS, infeasible))
+        if not missing or rounds > 4:
+            break
+        # top-up: structured projects built for the pairs of tag values not reached yet
+        todo = []
+        for pair in missing[:150]:
+            for _ in range(2):
+                todo.append(sc.structured_project(rng, **params_for(rng, pair)))
+    projects_total = n_done
     codes = core.coq_eval(ctx, "c11", PRE, items, "check_x", timeout=1200)
     rendered = rendered_text_probe(ctx, exe)
     if not ctx.quick:
@@ -232,7 +430,8 @@ def run(ctx):
                 "combining marks, astral characters, </script>, <!--; one case per translation unit; non-trivial = "
                 "table of >= 2 strings; distinct by hash of (table, shape)",
         "samples": samples,
-        "projects": len(projects), "projects_rejected_by_parser": len(skipped), "rejected_examples": skipped[:3],
+        "pairwise_coverage": sc.pairwise(tagged, DIMS, infeasible), "coverage_rounds": rounds,
+        "projects": projects_total, "projects_rejected_by_parser": len(skipped), "rejected_examples": skipped[:3],
         "traces_validated_against_impl": len(metas),
         "disagreements": len(disagree), "spec_failures_on_impl": len(bad_spec),
         "decoder_mismatch_coq_vs_python": len(oracle_mismatch), "unexpected_shapes": len(shape), "panics": len(panics),
